@@ -175,13 +175,29 @@ structure DistinctGuards (inp : FindInput) (W : Rat) : Prop where
   apart : ∀ k, k < inp.ppos.length → ∀ j, j < k →
     inp.atol * inp.atol < distSq (inp.ppos.getD k Vec3.zero) (inp.ppos.getD j Vec3.zero)
 
-/-- two entries of a candidate tuple never denote the same unit-cell atom -/
-theorem cand_distinct (inp : FindInput) (W : Rat) (hg : DistinctGuards inp W) (c : List Nat)
+/-- two entries of a candidate tuple never denote the same unit-cell atom — UNCONDITIONALLY: the extension loop skips
+    a near atom whose unit-cell atom is already in the partial match -/
+theorem cand_distinct (inp : FindInput) (c : List Nat)
     (hc : CandOK inp.ppos inp.pelems inp.atol (fun k => inp.nearPosL.getD k Vec3.zero)
-      (fun k => inp.nearElemL.getD k "") inp.near.length inp.ppos.length c)
+      (fun k => inp.nearElemL.getD k "") (fun k => inp.nearUcL.getD k 0) inp.near.length inp.ppos.length c)
     (k j : Nat) (hk : k < inp.ppos.length) (hj : j < k) :
     inp.near.getD (c.getD j 0) 0 % inp.pos.length ≠ inp.near.getD (c.getD k 0) 0 % inp.pos.length := by
-  obtain ⟨-, hel, hdist⟩ := hc
+  obtain ⟨-, hel, -, hdis⟩ := hc
+  have hcj := (hel j (by omega)).1
+  have hck := (hel k hk).1
+  have h := hdis k hk j hj
+  simp only [FindInput.nearUcL] at h
+  rw [getD_map_lt inp.near _ _ 0 0 hcj, getD_map_lt inp.near _ _ 0 0 hck] at h
+  exact h
+
+/-- the pair-distance screen ALONE already separates the entries on the property's domain (`DistinctGuards`): what made
+    the atoms distinct before the explicit test was added to the extension loop; still true of the model -/
+theorem cand_distinct_by_screen (inp : FindInput) (W : Rat) (hg : DistinctGuards inp W) (c : List Nat)
+    (hc : CandOK inp.ppos inp.pelems inp.atol (fun k => inp.nearPosL.getD k Vec3.zero)
+      (fun k => inp.nearElemL.getD k "") (fun k => inp.nearUcL.getD k 0) inp.near.length inp.ppos.length c)
+    (k j : Nat) (hk : k < inp.ppos.length) (hj : j < k) :
+    inp.near.getD (c.getD j 0) 0 % inp.pos.length ≠ inp.near.getD (c.getD k 0) 0 % inp.pos.length := by
+  obtain ⟨-, hel, hdist, -⟩ := hc
   intro heq
   have hcj := (hel j (by omega)).1
   have hck := (hel k hk).1
